@@ -17,9 +17,12 @@ CONSTANTS
   BitmapHonoursShallow = TRUE
   CgOctopusOk = TRUE
   MaxParents = 2
+  GraftsBeforeGraph = TRUE
+  IdxLargeFrom31 = TRUE
   CgHonoursShallow = TRUE
   Focus = "all"
 INVARIANT TypeOK
+INVARIANT IdxTransparent
 INVARIANT Transparent
 INVARIANT RefsTransparent
 INVARIANT StaleRejected
